@@ -5,12 +5,12 @@ go 1.23
 toolchain go1.23.5
 
 require (
+	github.com/go-openapi/jsonpointer v0.21.1
 	github.com/go-openapi/spec v0.0.0
 	pgregory.net/rapid v1.3.0
 )
 
 require (
-	github.com/go-openapi/jsonpointer v0.21.1 // indirect
 	github.com/go-openapi/jsonreference v0.21.0 // indirect
 	github.com/go-openapi/swag v0.23.1 // indirect
 	github.com/josharian/intern v1.0.0 // indirect
